@@ -31,13 +31,16 @@ ASSUMPTIONS = [
   "qacc is judged only when contact and row multisets matched, neither engine hit its iteration limit and the reference is stable under the probe (gating rule)",
 ]
 BUDGET = {"quick": 150, "thorough": 1500}
+CRASH_IS_VIOLATION = True  # a model accepted by put_model that kills the process inside mjw.forward cannot "agree with MuJoCo"
 
 A = 2e-5
+SHAPES2 = ((3, 3), (3, 4), (4, 4), (2, 5))
+SHAPES3 = ((2, 2, 2), (3, 2, 2), (2, 3, 3), (3, 3, 3))
 PRE = ("flexvert_xpos", "flexedge_length", "flexedge_velocity", "qfrc_spring", "qfrc_damper", "qfrc_passive")
 
 
 def cases(tier, seed):
-  n = 96 if tier == "quick" else 1400
+  n = 80 if tier == "quick" else 1200
   return [{"id": f"s{seed}_{i}", "seed": seed * 100000 + i} for i in range(n)]
 
 
@@ -48,16 +51,17 @@ def _f(x):
   return " ".join(f"{float(v):.6g}" for v in np.atleast_1d(x))
 
 
-def flex_xml(rng, name, dim, origin, feat, collide_geoms):
+def flex_xml(rng, name, dim, origin, feat, collide_geoms, nocollide=False):
   """One <flexcomp>; returns (xml, info)."""
+  # sizes come from a small set of shape classes: MJWarp kernels specialise on nv, every new nv costs ~10 s of compilation
   if dim == 1:
-    count = [int(rng.integers(3, 9)), 1, 1]
+    count = [int(rng.choice([4, 6, 8])), 1, 1]
   elif dim == 2:
-    count = [int(rng.integers(2, 6)), int(rng.integers(2, 6)), 1]
+    count = list(SHAPES2[int(rng.integers(len(SHAPES2)))]) + [1]
   else:
-    count = [int(rng.integers(2, 4)), int(rng.integers(2, 4)), int(rng.integers(2, 4))]
+    count = list(SHAPES3[int(rng.integers(len(SHAPES3)))])
   sp = float(rng.choice([0.05, 0.08, 0.1, 0.15]))
-  radius = float(rng.choice([0.005, 0.01, 0.02, 0.03]))
+  radius = float(rng.choice([r for r in (0.005, 0.01, 0.02, 0.03) if 2.2 * r < sp]))  # MuJoCo: spacing must exceed the geometry size
   a = {"name": name, "type": "grid", "count": _f(count).replace(".0", ""), "spacing": _f([sp] * 3), "dim": str(dim), "mass": _f(rng.uniform(0.2, 2.0)), "radius": _f(radius), "pos": _f(origin)}
   a["count"] = " ".join(str(c) for c in count)
   if rng.random() < 0.4:
@@ -74,11 +78,11 @@ def flex_xml(rng, name, dim, origin, feat, collide_geoms):
   inner = []
   # one passive or constraint mechanism
   if dim == 1:
-    mech = str(rng.choice(["edge-spring", "edge-equality", "edge-equality+damping", "none"], p=[0.35, 0.35, 0.2, 0.1]))
+    mech = str(rng.choice(["edge-spring", "edge-equality", "edge-equality+damping", "none"], p=[0.2, 0.6, 0.1, 0.1]))
   elif dof == "trilinear":
     mech = str(rng.choice(["elasticity", "strain-equality", "none"], p=[0.5, 0.4, 0.1]))
   else:
-    mech = str(rng.choice(["elasticity", "edge-equality", "edge-equality+damping", "none"], p=[0.55, 0.25, 0.1, 0.1]))
+    mech = str(rng.choice(["elasticity", "edge-equality", "edge-equality+damping", "none"], p=[0.55, 0.3, 0.05, 0.1]))
   feat.add("mech:" + mech)
   if mech == "edge-spring":
     inner.append(f'<edge stiffness="{_f(rng.uniform(5, 200))}" damping="{_f(rng.uniform(0.01, 1.0))}"/>')
@@ -98,19 +102,19 @@ def flex_xml(rng, name, dim, origin, feat, collide_geoms):
   # pins
   nvert = count[0] * count[1] * count[2]
   if dof == "full" and rng.random() < 0.45:
-    npin = int(rng.integers(1, 3))
+    npin = 1
     ids = sorted(set(int(x) for x in rng.choice(nvert, size=npin, replace=False)))
     inner.append(f'<pin id="{" ".join(map(str, ids))}"/>')
     feat.add("pin")
   # contact
   c = {}
   sc = str(rng.choice(["none", "none", "narrow", "bvh", "sap", "auto"]))
-  if dim == 1 and sc in ("bvh", "sap"):
-    pass
+  if dof == "trilinear" or nocollide:
+    sc = "none"  # MuJoCo: trilinear interpolation cannot do self-collision
   c["selfcollide"] = sc
   feat.add("selfcollide:" + sc)
   c["internal"] = "false"
-  if not collide_geoms and rng.random() < 0.5:
+  if nocollide or (not collide_geoms and rng.random() < 0.5):
     c["contype"] = "0"
     c["conaffinity"] = "0"
   else:
@@ -128,25 +132,28 @@ def flex_xml(rng, name, dim, origin, feat, collide_geoms):
   inner.append("<contact " + " ".join(f'{k}="{v}"' for k, v in c.items()) + "/>")
   xml = "<flexcomp " + " ".join(f'{k}="{v}"' for k, v in a.items()) + ">" + "".join(inner) + "</flexcomp>"
   ext = np.array(count) * sp
-  return xml, {"count": count, "spacing": sp, "radius": radius, "extent": ext, "dim": dim, "dof": dof, "mech": mech}
+  e2d = e.get("elastic2d") if mech == "elasticity" and dim == 2 else None
+  return xml, {"count": count, "spacing": sp, "radius": radius, "extent": ext, "dim": dim, "dof": dof, "mech": mech, "e2d": e2d}
 
 
 def make_xml(seed):
   rng = np.random.default_rng(seed)
   feat = set()
   dim = int(rng.choice([1, 2, 3], p=[0.3, 0.4, 0.3]))
-  with_geoms = rng.random() < 0.65
-  parent = str(rng.choice(["world", "world", "slide", "hinge", "free"]))
+  nocollide = rng.random() < 0.62  # collision-free models keep the passive / equality / solver comparison gated
+  with_geoms = (not nocollide) and rng.random() < 0.75
+  feat.add("collision:" + ("off" if nocollide else "on"))
+  parent = str(rng.choice(["world", "slide", "hinge", "free"], p=[0.88, 0.04, 0.04, 0.04]))
   feat.add("parent:" + parent)
   origin = np.array([0.0, 0.0, float(rng.uniform(0.2, 0.5))])
-  fx, info = flex_xml(rng, "f0", dim, [0, 0, 0] if parent != "world" else origin, feat, with_geoms)
+  fx, info = flex_xml(rng, "f0", dim, [0, 0, 0] if parent != "world" else origin, feat, with_geoms, nocollide)
   flexes = [fx]
   infos = [info]
   second = ""
-  if rng.random() < 0.25:
+  if rng.random() < 0.2:
     d2 = int(rng.choice([1, 2, 3]))
     off = origin + np.array([0, 0, info["radius"] * 2 + 0.01]) + np.array([rng.uniform(-0.03, 0.03), rng.uniform(-0.03, 0.03), info["extent"][2] * (dim == 3)])
-    f2, info2 = flex_xml(rng, "f1", d2, off, feat, True)
+    f2, info2 = flex_xml(rng, "f1", d2, off, feat, True, nocollide)
     second = f2
     infos.append(info2)
     feat.add("two_flexes")
@@ -195,6 +202,9 @@ def make_xml(seed):
   integ = str(rng.choice(["Euler", "Euler", "RK4"]))
   cone = str(rng.choice(["pyramidal", "elliptic"]))
   jac = str(rng.choice(["dense", "sparse", "auto"]))
+  nvert_total = sum(int(np.prod(i["count"])) for i in infos)
+  if 3 * nvert_total + 6 > 60 and jac == "dense":
+    jac = "sparse"  # put_model refuses dense Jacobians for nv > 60
   solver = str(rng.choice(["Newton", "Newton", "CG"]))
   feat.update({"integrator:" + integ, "cone:" + cone, "jacobian:" + jac, "solver:" + solver})
   if parent == "world":
@@ -207,6 +217,7 @@ def make_xml(seed):
   <size memory="50M"/>
   <asset><mesh name="wedge" vertex="-0.1 -0.1 -0.1  0.1 -0.1 -0.1  0.1 0.1 -0.1  -0.1 0.1 -0.1  0 -0.1 0.1  0 0.1 0.1"/></asset>
   <worldbody>
+    <geom name="inert" type="sphere" size="0.01" pos="3 3 3" contype="0" conaffinity="0"/>
     {"".join(geoms)}
     {body}
     {second}
@@ -298,6 +309,36 @@ def run_case(case):
     rec.rejected = f"put_model: {e}"[:200]
     rec.count("rejected_put_model:" + str(e)[:60])
     return rec.result()
+  # mechanism predicates of known deviations (each gets exactly one signature; fields downstream of it are not judged)
+  anc = False
+  for b in set(int(x) for x in mjm.flex_vertbodyid if x >= 0):
+    p = mjm.body_parentid[b] if mjm.body_dofnum[b] else b
+    while p > 0:
+      if mjm.body_dofnum[p] and p != b:
+        anc = True
+      p = mjm.body_parentid[p]
+  # a pinned vertex lives on the parent body itself: its own dofs are then shared with other vertices' ancestors
+  jointed_parent = bool(anc)
+  edge_spring = bool(np.any(mjm.flex_edgestiffness != 0))
+  edge_damp = bool(np.any(mjm.flex_edgedamping != 0))
+  if jointed_parent:
+    rec.cover("models_flex_on_jointed_parent", 1)
+  # MuJoCo's mj_flex leaves edge quantities untouched where they cannot matter: no lengths for rigid / interpolated flexes,
+  # no Jacobian / velocity when the flex has no edge equality, edge stiffness / damping or elasticity damping
+  e_len = np.zeros(mjm.nflexedge, bool)
+  e_jac = np.zeros(mjm.nflexedge, bool)
+  for f in range(mjm.nflex):
+    a0, n0 = int(mjm.flex_edgeadr[f]), int(mjm.flex_edgenum[f])
+    live = not mjm.flex_rigid[f] and mjm.flex_interp[f] == 0
+    needj = bool(mjm.flex_edgeequality[f] or mjm.flex_edgedamping[f] or mjm.flex_edgestiffness[f] or mjm.flex_damping[f])
+    e_len[a0 : a0 + n0] = live
+    e_jac[a0 : a0 + n0] = live and needj
+  # configuration class of the model: part of every signature, so that one broken flex variant cannot hide another
+  def _cls(i):
+    m_ = i["mech"] + ("/" + i["e2d"] if i.get("e2d") else "")
+    return f"dim{i['dim']}/{i['dof']}/{m_}"
+
+  CL = "[" + "+".join(_cls(i) for i in infos) + "]"
   nworld = 2 + int(seed % 2)
   states = [sample_state(mjm, rng, infos) for _ in range(nworld)]
   d = mw.make_data(mjm, m, states, nconmax=400, njmax=1600)
@@ -314,15 +355,70 @@ def run_case(case):
   niter = mw.npy(d.solver_niter)
   displaced = False
   for w in range(nworld):
-    ref, noise, mjd = cmp.reference(mjm, states[w], stage, extract, seed=seed + w)
+    try:
+      ref, noise, mjd = cmp.reference(mjm, states[w], stage, extract, seed=seed + w)
+    except mujoco.FatalError as e:
+      rec.inconcl(f"reference engine failed: {e}"[:120])
+      rec.count("worlds_reference_engine_error")
+      continue
+    # extra conditioning probes: float32 resolution of the *Cartesian* vertex positions (qpos of a flex vertex is a small
+    # displacement, its ulp is far below the rounding of body_pos + qpos in float32)
+    prng = np.random.default_rng(seed * 31 + w)
+    amp = 1.2e-7 * max(1.0, float(np.abs(ref["flexvert_xpos"]).max()) if ref["flexvert_xpos"].size else 1.0)
+    for _ in range(2):
+      st2 = dict(states[w])
+      st2["qpos"] = states[w]["qpos"].astype(np.float64) + prng.uniform(-1, 1, size=mjm.nq) * amp
+      mjd2 = mujoco.MjData(mjm)
+      mw.apply_state_mj(mjm, mjd2, st2)
+      try:
+        mujoco.mj_forward(mjm, mjd2)
+      except mujoco.FatalError:
+        continue
+      alt = extract(mjm, mjd2)
+      for k in ref:
+        a_ = np.asarray(alt[k], dtype=np.float64)
+        noise[k] = float("inf") if a_.shape != ref[k].shape else max(noise[k], float(np.abs(a_ - ref[k]).max()) if a_.size else 0.0)
     ctx = f"world {w}"
     # ---- pre-solver fields
+    cok = rok = True
+    skip = set()
+    if jointed_parent:
+      skip |= {"flexedge_velocity", "qfrc_spring", "qfrc_damper", "qfrc_passive", "rows", "qacc"}
+    if edge_spring:
+      skip |= {"qfrc_spring", "qfrc_passive", "qacc"}
+    if edge_damp:
+      skip |= {"qfrc_damper", "qfrc_passive", "qacc"}
     for k in PRE:
       r = ref[k]
       g = np.asarray(got[k][w]).reshape(-1)[: r.size].reshape(r.shape)
-      cmp.judge(rec, k, g, r, A, noise[k], ctx=ctx)
+      if k in skip:
+        rec.count("fields_skipped_downstream_of_known_deviation")
+        continue
+      if k == "flexedge_length":
+        g, r = g[e_len], r[e_len]
+      elif k == "flexedge_velocity":
+        g, r = g[e_jac], r[e_jac]
+      cmp.judge(rec, k, g, r, A, noise[k], sig_prefix=CL, ctx=ctx)
     gJ = dense_edge_J(mjm, eJ[w], rn, ra, ci)
-    cmp.judge(rec, "flexedge_J", gJ, ref["flexedge_J"], A, noise["flexedge_J"], ctx=ctx)
+    rec.cover("flex_edges_with_reference_jacobian", int(e_jac.sum()))
+    cmp.judge(rec, "flexedge_J", gJ[e_jac], ref["flexedge_J"][e_jac], A, noise["flexedge_J"], sig_prefix=("jointed-parent:" if jointed_parent else CL), ctx=ctx)
+    # the two silently ignored passive mechanisms: exactly one signature each, decided on the mechanism itself
+    for flag_, name, fld in ((edge_spring, "flex_edgestiffness", "qfrc_spring"), (edge_damp, "flex_edgedamping", "qfrc_damper")):
+      if flag_ and not jointed_parent:
+        mjm2 = mujoco.MjModel.from_xml_string(xml)
+        getattr(mjm2, name)[:] = 0
+        mjd2 = mujoco.MjData(mjm2)
+        mw.apply_state_mj(mjm2, mjd2, states[w])
+        mujoco.mj_forward(mjm2, mjd2)
+        contrib = getattr(mjd, fld) - getattr(mjd2, fld)  # what the mechanism adds in MuJoCo
+        g = np.asarray(got[fld][w])[: mjm.nv]
+        rec.check()
+        sc = max(1e-9, float(np.abs(contrib).max()))
+        if sc > 1e-6:
+          if np.abs(g - getattr(mjd2, fld)).max() < 1e-3 * sc + 1e-5:
+            rec.viol(f"passive:{name}-ignored", f"{ctx}: {fld} equals MuJoCo's value with {name}=0 (max contribution of the mechanism in MuJoCo {sc:.4g}); put_model accepted the model", got=g[:6], ref=getattr(mjd, fld)[:6])
+          elif np.abs(g - getattr(mjd, fld)).max() > 30 * (A * max(1.0, float(np.abs(getattr(mjd, fld)).max())) + 50 * noise[fld]):
+            rec.viol(f"passive:{fld}:with-{name}", f"{ctx}: {fld} matches neither MuJoCo with nor without {name}")
     if mjm.nflexvert and np.abs(ref["flexvert_xpos"] - ref["flexvert_xpos"].mean(axis=0)).max() > 0:
       displaced = True
     rec.cover("flex_vertices_compared", int(mjm.nflexvert))
@@ -350,23 +446,51 @@ def run_case(case):
     else:
       rec.check()
       rec.cover("contacts_reference", len(mjd.contact))
-      for key in rkeys:
-        kind = "flex-geom" if key[0] >= 0 or key[1] >= 0 else ("flex-self" if key[2] == key[3] else "flex-flex")
-        rec.cover("contact_kind:" + kind, len(rkeys[key]))
+
+      def combo(key):
+        """Mechanism class of a contact key: which primitive pair produced it."""
+        g0_, g1_, f0_, f1_, e0_, e1_, v0_, v1_ = key
+        if g0_ >= 0 or g1_ >= 0:
+          g = g0_ if g0_ >= 0 else g1_
+          f = f1_ if f1_ >= 0 else f0_
+          gt = mujoco.mjtGeom(int(mjm.geom_type[g])).name[7:].lower()
+          prim = "elem" if max(e0_, e1_) >= 0 else "vert"
+          return f"{gt}-vs-{prim}(dim{int(mjm.flex_dim[f])})"
+        prim = ("elem" if e0_ >= 0 else "vert") + "-" + ("elem" if e1_ >= 0 else "vert")
+        same = "self" if f0_ == f1_ else "flex-flex"
+        return f"{same}:{prim}(dim{int(mjm.flex_dim[f0_])},dim{int(mjm.flex_dim[f1_])})"
+
+      def path(key):
+        """Collision path (one MJWarp kernel family each); the per-primitive detail goes to the coverage counters."""
+        g0_, g1_, f0_, f1_ = key[:4]
+        if g0_ >= 0 or g1_ >= 0:
+          g = g0_ if g0_ >= 0 else g1_
+          f = f1_ if f1_ >= 0 else f0_
+          return ("plane" if mjm.geom_type[g] == mujoco.mjtGeom.mjGEOM_PLANE else "geom") + f"-vs-flex(dim{int(mjm.flex_dim[f])})"
+        return ("self" if f0_ == f1_ else "flex-flex") + f"(dim{int(mjm.flex_dim[f0_])},dim{int(mjm.flex_dim[f1_])})"
+
       missing = [k for k in rkeys if len(gkeys.get(k, [])) < len(rkeys[k])]
       extra = [k for k in gkeys if len(rkeys.get(k, [])) < len(gkeys[k])]
+      for key in rkeys:
+        rec.cover(("contact_missing:" if key in missing else "contact_matched:") + combo(key), len(rkeys[key]))
+      for key in extra:
+        rec.cover("contact_extra:" + combo(key), len(gkeys[key]))
       if missing or extra:
         contacts_match = False
-        k0 = (missing or extra)[0]
-        kind = "flex-geom" if k0[0] >= 0 or k0[1] >= 0 else ("flex-self" if k0[2] == k0[3] else "flex-flex")
-        what = "missing" if missing else "extra"
-        rec.viol(
-          f"contacts:{what}:{kind}",
-          f"{ctx}: MuJoCo has {len(mjd.contact)} contacts, MJWarp {len(sel)}; {len(missing)} keys missing, {len(extra)} extra; first {what} (geom,geom,flex,flex,elem,elem,vert,vert)={k0}",
-          missing=missing[:6],
-          extra=extra[:6],
-        )
+        seen = set()
+        for what, lst in (("missing", missing), ("extra", extra)):
+          for k0 in lst:
+            sg = f"contacts:set-differs:{path(k0)}"
+            if sg in seen:
+              continue
+            seen.add(sg)
+            cinfo = ""
+            if what == "missing":
+              c = mjd.contact[rkeys[k0][0]]
+              cinfo = f" reference dist {c.dist:.5g} includemargin {c.includemargin:.4g} pos {np.round(c.pos, 4).tolist()}"
+            rec.viol(sg, f"{ctx}: MuJoCo has {len(mjd.contact)} contacts, MJWarp {len(sel)}; {len(missing)} keys missing, {len(extra)} extra; {what} (geom,geom,flex,flex,elem,elem,vert,vert)={k0}{cinfo}", missing=missing[:6], extra=extra[:6])
       else:
+        cok = True
         for key, ris in rkeys.items():
           gis = gkeys[key]
           for ri in ris:
@@ -374,27 +498,29 @@ def run_case(case):
             # nearest position among same-key contacts
             gi = min(gis, key=lambda i: np.abs(con["pos"][i] - c.pos).max())
             nz = max(noise["flexvert_xpos"], 1e-9)
-            cmp.judge(rec, "contact.dist", con["dist"][gi], c.dist, 1e-5, 10 * nz, ctx=f"{ctx} key {key}")
-            cmp.judge(rec, "contact.pos", con["pos"][gi], c.pos, 1e-5, 10 * nz, ctx=f"{ctx} key {key}")
-            cmp.judge(rec, "contact.normal", np.asarray(con["frame"][gi]).reshape(3, 3)[0], np.asarray(c.frame)[:3], 1e-4, 1e3 * nz, ctx=f"{ctx} key {key}")
-            cmp.judge(rec, "contact.includemargin", con["includemargin"][gi], c.includemargin, 1e-6, 0, ctx=f"{ctx} key {key}")
-            cmp.judge(rec, "contact.friction", con["friction"][gi], c.friction, 1e-6, 0, ctx=f"{ctx} key {key}")
-            cmp.judge(rec, "contact.solref", con["solref"][gi], c.solref, 1e-6, 0, ctx=f"{ctx} key {key}")
-            cmp.judge(rec, "contact.solimp", con["solimp"][gi], c.solimp, 1e-6, 0, ctx=f"{ctx} key {key}")
+            cok &= "ok" == cmp.judge(rec, "contact.dist", con["dist"][gi], c.dist, 1e-5, 10 * nz, sig_prefix=combo(key) + ":", ctx=f"{ctx} key {key}")
+            cok &= "ok" == cmp.judge(rec, "contact.pos", con["pos"][gi], c.pos, 1e-5, 10 * nz, sig_prefix=combo(key) + ":", ctx=f"{ctx} key {key}")
+            cok &= "ok" == cmp.judge(rec, "contact.normal", np.asarray(con["frame"][gi]).reshape(3, 3)[0], np.asarray(c.frame)[:3], 1e-4, 1e3 * nz, sig_prefix=combo(key) + ":", ctx=f"{ctx} key {key}")
+            cok &= "ok" == cmp.judge(rec, "contact.includemargin", con["includemargin"][gi], c.includemargin, 1e-6, 0, sig_prefix=combo(key) + ":", ctx=f"{ctx} key {key}")
+            cok &= "ok" == cmp.judge(rec, "contact.friction", con["friction"][gi], c.friction, 1e-6, 0, sig_prefix=combo(key) + ":", ctx=f"{ctx} key {key}")
+            cok &= "ok" == cmp.judge(rec, "contact.solref", con["solref"][gi], c.solref, 1e-6, 0, sig_prefix=combo(key) + ":", ctx=f"{ctx} key {key}")
+            cok &= "ok" == cmp.judge(rec, "contact.solimp", con["solimp"][gi], c.solimp, 1e-6, 0, sig_prefix=combo(key) + ":", ctx=f"{ctx} key {key}")
             rec.check()
             if int(con["dim"][gi]) != int(c.dim):
-              rec.viol("contact.dim", f"{ctx}: contact dim {int(con['dim'][gi])} vs {int(c.dim)} key {key}")
+              rec.viol(combo(key) + ":contact.dim", f"{ctx}: contact dim {int(con['dim'][gi])} vs {int(c.dim)} key {key}")
 
+    if contacts_match and struct_stable and not boundary and len(mjd.contact) and not cok:
+      contacts_match = False
     # ---- constraint rows (multiset per (type, id))
     rows_match = False
-    if struct_stable and contacts_match:
+    if struct_stable and contacts_match and "rows" not in skip:
       R = mj_rows(mjm, mjd)
       G = mw.efc_rows(mjm, m, d, w)
       rec.check()
       rows_match = True
       if G["nefc"] != len(R["type"]):
         rows_match = False
-        rec.viol("efc:nefc", f"{ctx}: nefc {G['nefc']} vs MuJoCo {len(R['type'])} (ne {G['ne']} vs {mjd.ne})")
+        rec.viol("efc:nefc" + CL, f"{ctx}: nefc {G['nefc']} vs MuJoCo {len(R['type'])} (ne {G['ne']} vs {mjd.ne})")
       else:
         # contact ids differ between engines: contact rows are grouped by the contact key instead
         def rowkey(types, ids, i, which):
@@ -415,9 +541,18 @@ def run_case(case):
         if set(rg) != set(gg) or any(len(rg[k]) != len(gg[k]) for k in rg):
           rows_match = False
           bad = [k for k in set(rg) | set(gg) if len(rg.get(k, [])) != len(gg.get(k, []))][:4]
-          rec.viol("efc:row-groups", f"{ctx}: constraint row groups differ, e.g. (type,id)->(#mujoco,#mjwarp): " + ", ".join(f"{k}->({len(rg.get(k, []))},{len(gg.get(k, []))})" for k in bad))
+          rec.viol("efc:row-groups" + CL, f"{ctx}: constraint row groups differ, e.g. (type,id)->(#mujoco,#mjwarp): " + ", ".join(f"{k}->({len(rg.get(k, []))},{len(gg.get(k, []))})" for k in bad))
         else:
           nzJ = max(noise["flexedge_J"], noise["flexvert_xpos"], 1e-9)
+
+          def rowcls(key):
+            if isinstance(key[1], tuple):
+              return "row:" + combo(key[1]) + ":"
+            if key[0] == int(mujoco.mjtConstraint.mjCNSTR_EQUALITY):
+              return "row:equality:" + CL
+            return "row:other:" + CL
+
+          rok = True
           for key, ris in rg.items():
             gis = list(gg[key])
             is_eq = key[0] == int(mujoco.mjtConstraint.mjCNSTR_EQUALITY)
@@ -427,15 +562,17 @@ def run_case(case):
               gi = min(gis, key=lambda i: np.abs(G["J"][i] - R["J"][ri]).max() + abs(G["pos"][i] - R["pos"][ri]))
               gis.remove(gi)
               jscale = 100 if not is_eq else 10
-              cmp.judge(rec, "efc.J", G["J"][gi], R["J"][ri], 1e-4, jscale * nzJ, ctx=f"{ctx} row {ri} key {key}")
-              cmp.judge(rec, "efc.pos", G["pos"][gi], R["pos"][ri], 1e-5, 10 * nzJ, ctx=f"{ctx} row {ri} key {key}")
-              cmp.judge(rec, "efc.D", G["D"][gi] / max(1.0, abs(R["D"][ri])), R["D"][ri] / max(1.0, abs(R["D"][ri])), 1e-4, 0, ctx=f"{ctx} row {ri} key {key}")
+              rok &= "ok" == cmp.judge(rec, "efc.J", G["J"][gi], R["J"][ri], 1e-4, jscale * nzJ, sig_prefix=rowcls(key), ctx=f"{ctx} row {ri} key {key}")
+              rok &= "ok" == cmp.judge(rec, "efc.pos", G["pos"][gi], R["pos"][ri], 1e-5, 10 * nzJ, sig_prefix=rowcls(key), ctx=f"{ctx} row {ri} key {key}")
+              rok &= "ok" == cmp.judge(rec, "efc.D", G["D"][gi] / max(1.0, abs(R["D"][ri])), R["D"][ri] / max(1.0, abs(R["D"][ri])), 1e-4, 0, sig_prefix=rowcls(key), ctx=f"{ctx} row {ri} key {key}")
+    if rows_match and not rok:
+      rows_match = False
     # ---- gated post-solver comparison
-    gated = struct_stable and contacts_match and rows_match and int(niter[w]) < mjm.opt.iterations and mjd.solver_niter[0] < mjm.opt.iterations
+    gated = "qacc" not in skip and struct_stable and contacts_match and rows_match and int(niter[w]) < mjm.opt.iterations and mjd.solver_niter[0] < mjm.opt.iterations
     if gated:
       rec.count("worlds_gated")
       sc = max(1.0, float(np.abs(ref["qacc"]).max()))
-      cmp.judge(rec, "qacc", got["qacc"][w][: mjm.nv] / sc, ref["qacc"] / sc, 1e-3, noise["qacc"] / sc, ctx=ctx)
+      cmp.judge(rec, "qacc", got["qacc"][w][: mjm.nv] / sc, ref["qacc"] / sc, 1e-3, noise["qacc"] / sc, sig_prefix=CL + ("sparse" if m.is_sparse else "dense") + "-" + mujoco.mjtSolver(int(mjm.opt.solver)).name[6:].lower() + ":", ctx=ctx)
     else:
       rec.count("worlds_ungated")
   for f in feat:
@@ -451,17 +588,20 @@ def run_case(case):
 def requirements(agg, tier):
   unmet = []
   feats = set(agg["cover"].get("features", []))
-  need = ["dim1", "dim2", "dim3", "dof:full", "dof:trilinear", "mech:elasticity", "mech:edge-equality", "mech:strain-equality", "mech:edge-spring", "pin", "selfcollide:narrow", "integrator:RK4", "cone:elliptic", "jacobian:sparse"]
+  need = ["dim1", "dim2", "dim3", "dof:full", "dof:trilinear", "dof:2d", "dof:radial", "mech:elasticity", "mech:edge-equality", "mech:strain-equality", "mech:edge-spring", "pin", "selfcollide:narrow", "integrator:RK4", "cone:elliptic", "jacobian:sparse", "collision:on", "collision:off"]
   for f in need:
     if f not in feats:
       unmet.append(f"feature never generated: {f}")
   cov = agg["cover"]
-  if cov.get("contact_kind:flex-geom", 0) < 20:
-    unmet.append("fewer than 20 reference flex-geom contacts compared")
+  ncont = sum(v for k, v in cov.items() if k.startswith(("contact_matched:", "contact_missing:")) and isinstance(v, int))
+  if ncont < 100:
+    unmet.append("fewer than 100 reference flex contacts compared")
   if cov.get("rows:flex-equality", 0) < 50:
     unmet.append("fewer than 50 flex equality rows compared")
-  if cov.get("rows:contact", 0) < 50:
-    unmet.append("fewer than 50 flex contact rows compared")
+  if cov.get("flex_edges_with_reference_jacobian", 0) < 500:
+    unmet.append("fewer than 500 flex edges with a reference Jacobian compared")
+  if cov.get("worlds_with_nonzero_flex_spring_force", 0) < 20:
+    unmet.append("fewer than 20 worlds with non-zero flex spring forces")
   if agg["distinct"] < 30:
     unmet.append("fewer than 30 distinct non-trivial cases")
   g, u = agg["tally"].get("worlds_gated", 0), agg["tally"].get("worlds_ungated", 0)
